@@ -549,7 +549,7 @@ def gen_case(r, tier):
             if r.random() < 0.2:
                 ip = sc["strategy"][b]["knobs"].get("initial_point")
                 sc["strategy"][b] = {"kind": "Fake", "knobs": ({"initial_point": ip} if ip else {})}
-        if sc["joint"]["shape"] in ("x_s", "x_d_s", "x_d_lmrf") and r.random() < 0.4:
+        if sc["joint"]["shape"] in ("x_s", "x_d_s", "x_d_lmrf") and sc["joint"].get("model") != "deconv" and r.random() < 0.4:
             sc["joint"]["model"] = "func"
             sc["fault_rate"] = r.choice([0.0, 0.1, 0.3])
         if r.random() < 0.5:
